@@ -22,5 +22,6 @@ MAPRANGES = ("Gen/MapRanges", "MapRanges")
 PASSFACTS = ("Gen/PassFacts", "PassFacts")
 # C15: measured (go build + execution through an assembly trampoline): does the assembler save/restore BP
 ASMBP = ("Oracle/AsmBP", "AsmBP")
+BRANCHOPS = ("Gen/BranchOps", "BranchOps")
 
-ALL_MODULES = [PASSFACTS, MAPRANGES, TEXTFLAGS, TEXTFLAGH, REGS, REGHW] + forms_modules() + ctors_modules() + [MOV, TAGCHARS, CONSTS, ASMBP]
+ALL_MODULES = [BRANCHOPS, PASSFACTS, MAPRANGES, TEXTFLAGS, TEXTFLAGH, REGS, REGHW] + forms_modules() + ctors_modules() + [MOV, TAGCHARS, CONSTS, ASMBP]
